@@ -240,7 +240,7 @@ func (t c06wrap) Exec(ctx context.Context, qCtx *query_context.Context, next seq
 
 func c06Gen(r *simrt.Rand) *c06prog {
 	p := &c06prog{Plugins: map[string]*c06plugin{}}
-	nseq := 1 + r.Choose(5)
+	nseq := 1 + r.Choose(widen(5, 8))
 	depth := make([]int, nseq)
 	np := 0
 	newPlugin := func(kind string, n int) string {
@@ -251,7 +251,7 @@ func c06Gen(r *simrt.Rand) *c06prog {
 	}
 	parBudget := 2 // at most two concurrent wrappers per program (histories stay small)
 	for si := 0; si < nseq; si++ {
-		nr := r.Choose(9)
+		nr := r.Choose(widen(9, 13))
 		var rules []c06rule
 		for ri := 0; ri < nr; ri++ {
 			var rule c06rule
